@@ -35,6 +35,7 @@ type SchedConfig struct {
 	FreeCost int  // cost of switching when the running thread is not enabled (0 = classic preemption bounding, 1 = every deviation counts)
 	MaxSteps int  // step horizon per execution
 	MaxExec  int64 // cap on executions per worker (0 = none)
+	Suspend  bool  // also explore "hold the default thread back until nothing else can run" (cost 1)
 }
 
 type schedExec struct {
@@ -82,7 +83,9 @@ func ExploreSchedules(w *Worker, cfg SchedConfig, body func() SchedOutcome) int6
 		for _, v := range out.Violations {
 			var dec []string
 			for i, d := range s.Decisions {
-				if d.Chosen != 0 {
+				if d.Chosen == vrt.Suspend {
+					dec = append(dec, fmt.Sprintf("#%d held back %s until nothing else can run", i, d.What[0]))
+				} else if d.Chosen != 0 {
 					dec = append(dec, fmt.Sprintf("#%d chose %s over %s", i, d.What[d.Chosen], d.What[0]))
 				}
 			}
@@ -99,7 +102,7 @@ func ExploreSchedules(w *Worker, cfg SchedConfig, body func() SchedOutcome) int6
 		if d.Chosen == 0 {
 			return 0
 		}
-		if d.CurEnabled {
+		if d.CurEnabled || d.Chosen == vrt.Suspend {
 			return 1
 		}
 		return cfg.FreeCost
@@ -147,6 +150,14 @@ func ExploreSchedules(w *Worker, cfg SchedConfig, body func() SchedOutcome) int6
 						np := make([]int, i+1)
 						copy(np, s.Choices()[:i])
 						np[i] = alt
+						explore(np, false)
+					}
+				}
+				if cfg.Suspend && before+1 <= cfg.Bound {
+					if !(top && !w.Next()) {
+						np := make([]int, i+1)
+						copy(np, s.Choices()[:i])
+						np[i] = vrt.Suspend
 						explore(np, false)
 					}
 				}
